@@ -989,6 +989,83 @@ fn family2(n: usize, field: FieldId) -> Vec<AirDesc> {
     v.into_iter().filter(|d| d.validate().is_ok()).collect()
 }
 
+/// third hand-made family: a strided (periodic or sequence) assertion with stride S and first step a, next to
+/// SIBLING assertions whose parameters collide with (S, a) under any plausible key (sum, or, concatenation):
+/// single assertions on another column at the steps a, S + a (= S | a), 2S + a, the last asserted step, S and
+/// S - 1 + a, and a second strided assertion with the same stride. Every asserted cell gets violated individually
+/// (all cells are corrupted), on the main segment and — through an auxiliary column no transition constraint
+/// reads — on the auxiliary segment.
+fn family3(n: usize) -> Vec<AirDesc> {
+    let mut v = vec![];
+    let r = |i: usize| Expr::Rand(i);
+    let mut sa: Vec<(usize, usize)> = vec![(2, 1), (2, 0), (4, 1), (4, 0), (4, 3), (n / 2, 1), (n / 2, 0), (n / 2, n / 2 - 1)];
+    sa.sort();
+    sa.dedup();
+    for (stride, first) in sa {
+        if stride < 2 || stride > n / 2 || first >= stride {
+            continue;
+        }
+        for seq in [false, true] {
+            let ksteps = n / stride;
+            let strided = if seq { AssertDesc::sequence(1, first, stride) } else { AssertDesc::periodic(1, first, stride) };
+            let nv = if seq { ksteps } else { 1 };
+            let mut steps: Vec<usize> = vec![first, stride + first, 2 * stride + first, first + (ksteps - 1) * stride, stride, stride - 1 + first, 0, n - 1];
+            steps.retain(|s| *s < n);
+            steps.sort();
+            steps.dedup();
+            let lin0 = Expr::add(c(0), k(3));
+            let mut assertions = vec![strided.clone()];
+            for s in &steps {
+                assertions.push(AssertDesc::single(0, *s));
+            }
+            // a second strided assertion of the same stride on the same column (another first step) and one on
+            // the third column with the same (stride, first step): a legitimate member of the same group
+            let first2 = (first + 1) % stride;
+            if first2 != first {
+                assertions.push(if seq { AssertDesc::sequence(1, first2, stride) } else { AssertDesc::periodic(1, first2, stride) });
+            }
+            assertions.push(AssertDesc::periodic(2, first, stride));
+            let mut d = AirDesc {
+                width: 3,
+                trace_len: n,
+                exemptions: 1,
+                tail_junk: false,
+                periodic: vec![],
+                cols: vec![
+                    ColGen::Step { init: None, expr: lin0.clone() },
+                    if seq { ColGen::Rand } else { ColGen::Cyc(stride) },
+                    ColGen::Cyc(stride),
+                ],
+                constraints: vec![cons(&[], n, Expr::sub(nx(0), lin0))],
+                assertions,
+                aux: None,
+            };
+            // auxiliary segment: a0 = r0 * c1 + r1 carries the strided assertion and is read by NO transition
+            // constraint; a1 = r0 * c0 + r1 carries single assertions at the same steps as column 0
+            let i0 = Expr::add(Expr::mul(r(0), c(1)), r(1));
+            let i1 = Expr::add(Expr::mul(r(0), c(0)), r(1));
+            let sval = if seq { Expr::PubSeq(0) } else { Expr::Pub(0) };
+            let mut aa = vec![AuxAssertDesc {
+                a: if seq { AssertDesc::sequence(0, first, stride) } else { AssertDesc::periodic(0, first, stride) },
+                value: Expr::add(Expr::mul(r(0), sval), r(1)),
+            }];
+            for (i, s) in steps.iter().enumerate() {
+                aa.push(AuxAssertDesc { a: AssertDesc::single(1, *s), value: Expr::add(Expr::mul(r(0), Expr::Pub(nv + i)), r(1)) });
+            }
+            d.aux = Some(AuxDesc {
+                width: 2,
+                num_rands: 2,
+                lagrange: false,
+                cols: vec![AuxGen::Fn(i0), AuxGen::Fn(i1.clone())],
+                constraints: vec![cons(&[], n, Expr::sub(Expr::AuxCur(1), i1))],
+                assertions: aa,
+            });
+            v.push(d);
+        }
+    }
+    v.into_iter().filter(|d| d.validate().is_ok()).collect()
+}
+
 fn options_for(d: &AirDesc, field: FieldId, k: usize) -> OptSpec {
     let b = d.min_blowup().max(if k % 3 == 0 { 4 } else { 2 });
     let exts: Vec<u8> = (1..=3u8).filter(|x| field.supports_ext(*x)).collect();
@@ -1200,6 +1277,26 @@ impl Prop for P {
                         let kinds: &[&str] = if bi == 0 { &["inc", "rnd", "zero", "neg", "two", "dec", "p32", "dbl"] } else { &["inc", "dbl"] };
                         emit_config(rng, &cfg, true, kinds, emit);
                     }
+                }
+            }
+        }
+        // third family: strided assertions next to sibling assertions with colliding parameters; every asserted
+        // cell violated individually on both segments
+        let lens3: &[usize] = if quick { &[8, 16] } else { &[8, 16, 32] };
+        for &len in lens3 {
+            for (di, d) in family3(len).into_iter().enumerate() {
+                for (fi, field) in FieldId::ALL.into_iter().enumerate() {
+                    if quick && (di + fi) % 3 != 0 {
+                        continue;
+                    }
+                    let hashes = HashId::for_field(field);
+                    k += 1;
+                    let mut opts = options_for(&d, field, k);
+                    if opts.queries >= len * opts.blowup {
+                        opts.queries = 3;
+                    }
+                    let cfg = Cfg { field, hash: hashes[k % hashes.len()], opts, seed: 4000 + k as u64, desc: Arc::new(d.clone()) };
+                    emit_config(rng, &cfg, true, &["inc", "rnd"], emit);
                 }
             }
         }
